@@ -631,6 +631,22 @@ func tableHistories(r *core.Run) {
 					}
 					x := m.es[rnd.Intn(len(m.es))]
 					old := sql.Row{int64(x.a), int64(x.b), int64(x.tag)}
+					if rnd.Intn(6) == 0 {
+						// a new row the value operations refuse (wrong arity / wrong Go type): the update must fail and change nothing
+						bad := sql.Row{int64(x.a), int64(x.b)}
+						if rnd.Intn(2) == 0 {
+							bad = sql.Row{int64(rnd.Intn(space)), "not-a-number", int64(payload)}
+						}
+						h.add("Update(%v -> refused row %v)", old, bad)
+						run(func() error { return ed.Update(ctx, old, bad) })
+						outcome = "refused"
+						if p == nil && err == nil {
+							r.Violation("update-with-refused-row-reports-success:table", map[string]any{"history": h.ops})
+							ok = false
+						}
+						r.Count("table:Update-refused", 1)
+						break
+					}
 					nw := &elem{x.a, x.b, payload}
 					if rnd.Intn(2) == 0 { // move to another key that is free
 						nw.a, nw.b = rnd.Intn(space), rnd.Intn(space)
